@@ -51,3 +51,30 @@ Theorem C18_view_point_is_in_view_raw f h id from until0 now sh sh' sort a t v :
   In (RPoint id t v) (snd (view_raw_cmd f id from until0 now sh' sort)).
 Proof. exact (view_point_is_in_view_raw f h id from until0 now sh sh' sort a t v). Qed.
 Print Assumptions C18_view_point_is_in_view_raw.
+
+(** ** the -header switch only decides whether the header record is printed: status and point records of
+    view and view-raw -- sorted or not -- are the same with and without it (the seeded change C18-n
+    returned early, before sorting, when the header is off) *)
+Theorem C18_header_switch_only_adds_the_header_raw f aid from until0 now sort :
+  fst (view_raw_cmd f aid from until0 now true sort) = fst (view_raw_cmd f aid from until0 now false sort) /\
+  exists hdr, snd (view_raw_cmd f aid from until0 now true sort) = hdr ++ snd (view_raw_cmd f aid from until0 now false sort)
+              /\ (length hdr <= 1)%nat.
+Proof.
+  unfold view_raw_cmd. destruct f as [h0|]; [|split; [reflexivity|exists []; split; [reflexivity|cbn; lia]]].
+  destruct (opened (Some h0)) as [h|]; [|split; [reflexivity|exists []; split; [reflexivity|cbn; lia]]].
+  destruct ((aid =? ArchiveIDAll) || ((0 <=? aid) && (aid <? zlen (hd_arcs h))));
+    [|split; [reflexivity|exists []; split; [reflexivity|cbn; lia]]].
+  cbn [fst snd]. split; [reflexivity|]. exists [header_record h]. split; [reflexivity|cbn; lia].
+Qed.
+Print Assumptions C18_header_switch_only_adds_the_header_raw.
+
+Theorem C18_header_switch_only_adds_the_header f aid from until0 now :
+  fst (view_cmd f aid from until0 now true) = fst (view_cmd f aid from until0 now false) /\
+  exists hdr, snd (view_cmd f aid from until0 now true) = hdr ++ snd (view_cmd f aid from until0 now false)
+              /\ (length hdr <= 1)%nat.
+Proof.
+  unfold view_cmd. destruct (read_file f aid from (resolve_until until0 now) now) eqn:E;
+    cbn [fst snd]; (split; [reflexivity|]);
+    first [ exists []; split; [reflexivity|cbn; lia] | eexists [_]; split; [reflexivity|cbn; lia] ].
+Qed.
+Print Assumptions C18_header_switch_only_adds_the_header.
